@@ -24,6 +24,12 @@ Theorem C05_mwem_spends_rho rho alpha rounds bounded fwd : 0 < rho -> 0 < alpha 
 Proof. exact (mwem_ledger rho alpha rounds bounded fwd). Qed.
 Print Assumptions C05_mwem_spends_rho.
 
+(* MWEM+PGM in Laplace mode (pure epsilon-DP accounting: release of L1 change D at scale b costs D/b, selection eps): exactly epsilon *)
+Theorem C05_mwem_laplace_spends_eps eps alpha rounds bounded : 0 < eps -> 0 < alpha < 1 -> (0 < rounds)%nat ->
+  ptotal RNum (mwem_lap_events RNum eps alpha rounds bounded) = eps.
+Proof. exact (mwem_lap_ledger eps alpha rounds bounded). Qed.
+Print Assumptions C05_mwem_laplace_spends_eps.
+
 (* AIM: for EVERY sequence of annealing decisions (they depend on random outcomes) and every number of rounds with 0.9 d < rounds,
    the accumulated cost never exceeds rho and equals rho once the terminating round has run *)
 Theorem C05_aim_never_overspends rho rounds d decisions : 0 < rho -> (0 < rounds)%nat -> 9 / 10 * INR d < INR rounds ->
@@ -70,3 +76,6 @@ Print Assumptions C05_weighted_score_sensitivity.
 (* PARTIAL: that the Python code releases exactly these statistics (marginals of the private data, L1 scores against a model fitted to
    earlier releases) is observed: the check charges every event of two neighbouring runs by the ACTUAL change of the operand / of the
    selection probabilities.  The zCDP composition and conversion theorems are cited (charging rule), not proved. *)
+(* non-vacuity: the default rounds = 16 d meets the hypothesis of C05_aim_never_overspends (d = 3) *)
+Example C05_default_rounds_ok : 9 / 10 * INR 3 < INR 48.
+Proof. rewrite !INR_IZR_INZ. simpl. lra. Qed.
